@@ -53,6 +53,7 @@ ROUTES = [
 LIB = [["inc", "I{{ v }}"], ["incx", "I{{ x }}"],
        ["comps", "{% component c(p) %}C{{ p }}{% if body is defined %}{{ body }}{% endif %}{% endcomponent c %}"
                  "{% component outer(p) %}O{{<c p={p} />}}{% <c p={p}> %}{{ p }}{% if body is defined %}{{ body }}{% endif %}{% </c> %}{% endcomponent outer %}"],
+       ["compinc", "{% component ci(p) %}{% set v = p %}K{% include 'inc' %}{{<c p={p} />}}{% endcomponent ci %}"],
        ["base", "B{% block a %}P{{ v }}{% endblock %}{% block b %}{% endblock %}"],
        ["child", "{% extends 'base' %}{% block a %}K{{ super() }}{{ v }}{% endblock %}{% block b %}{% filter upper %}{% block n %}N{{ v }}{% endblock %}{% endfilter %}{% endblock %}"]]
 ENTITIES = ("&lt;", "&gt;", "&quot;", "&#39;", "&#x27;", "&amp;")
@@ -99,7 +100,8 @@ def sweep(C, tier):
                          {"op": "render_component", "name": "c", "auto": flag, "expect_ae": flag},
                          {"op": "render_component", "name": "c", "auto": flag, "body": "b", "expect_ae": flag},
                          {"op": "render_component", "name": "outer", "auto": flag, "expect_ae": flag},
-                         {"op": "render_component", "name": "outer", "auto": flag, "body": "b", "expect_ae": flag}]
+                         {"op": "render_component", "name": "outer", "auto": flag, "body": "b", "expect_ae": flag},
+                         {"op": "render_component", "name": "ci", "auto": flag, "expect_ae": flag}]
                 jobs.append({"cfg": {"autoescape": [".html"]}, "ctx": {"p": val}, "steps": steps})
                 meta.append(("api", kind, "suffix%s flag=%s" % (sfx, flag), None))
     # configuration path: a custom escape function that was set and then reset leaves the default escaper in charge
